@@ -2,7 +2,8 @@
  * E1 over the real 16-slot table with a time-abstracted key, in product with a dictionary model.
  * a = key set (0: (M1,g1) (M1,g2) (M2,g1);  1: (M1,g1) (M1,g2) (M3,g1))
  * b = 0: fixpoint with advances {30,31,61} s;  1: depth-bounded run that adds {1,59,60} s
- * start states: the empty table and 40 near-full layouts built through the real add/remove. */
+ * start states: the empty table and 60 near-full layouts built through the real add/remove
+ * (12..16 fillers x hole none/first/middle/last x fresh/half 61 s old, every third filler complete; 20 more with every filler complete). */
 #include "../mc/vf.h"
 #include "lltdAutomata.h"
 
@@ -129,14 +130,14 @@ static void root_setup(void) {
     if (!T) vf_harness_error("session_table_create failed");
     memset(&M, 0, sizeof M);
     if (start_cfg == 0) return;
-    int c = start_cfg - 1; int n = 12 + c % 5; int hole = (c / 5) % 4; int old = c / 20;
+    int c = start_cfg - 1; int n = 12 + c % 5; int hole = (c / 5) % 4; int old = (c / 20) % 2; int allc = c / 40;   /* cfg 41..60: every filler complete */
     fill_first = NPK; fill_mid = NPK + n / 2; fill_last = NPK + n - 1;
     for (int i = 0; i < n; i++) {
         if (old && i == n / 2) W.now_ms += 61000;
         int k = NPK + i; session_entry *e = session_table_add(T, KMAC[k], KGEN[k], 1);
         if (!e) vf_harness_error("prefill add failed");
         M.e[k].used = 1; M.e[k].seq = 1; M.e[k].last = now_s();
-        if (i % 3 == 0) { e->complete = true; M.e[k].complete = 1; }
+        if (allc || i % 3 == 0) { e->complete = true; M.e[k].complete = 1; }
     }
     session_table_update_complete_status(T);
     if (hole) { int k = hole == 1 ? fill_first : hole == 2 ? fill_mid : fill_last; session_table_remove(T, KMAC[k], KGEN[k]); M.e[k].used = 0; }
@@ -160,7 +161,7 @@ int main(int argc, char **argv) {
     int lo = (int)A.part, step = A.nparts;
     e1_stats tot; memset(&tot, 0, sizeof tot); tot.fixpoint = 1;
     int ncfg = 0;
-    for (start_cfg = lo; start_cfg <= 40; start_cfg += step) {
+    for (start_cfg = lo; start_cfg <= 60; start_cfg += step) {
         if (A.b == 1 && start_cfg > 0 && start_cfg % 7 != 1) continue;     /* depth-bounded off-by-one run: empty + a few layouts */
         char extra[48]; snprintf(extra, sizeof extra, "\"start_cfg\":%d", start_cfg);
         extern const char *vf_cex_extra; vf_cex_extra = extra;
@@ -173,7 +174,7 @@ int main(int argc, char **argv) {
     }
     R.states = tot.states; R.transitions = tot.transitions; R.evaluations = tot.transitions; R.max_depth = tot.max_depth;
     R.fixpoint = tot.fixpoint; R.exhaustive = tot.fixpoint; R.cap_hit = tot.cap;
-    vf_extra("start_layouts", "%d start layouts explored (0 = empty table; 1..40 = 12..16 fillers x hole none/first/middle/last x fresh/half 61 s old)", ncfg);
+    vf_extra("start_layouts", "%d start layouts explored (0 = empty table; 1..40 = 12..16 fillers x hole none/first/middle/last x fresh/half 61 s old; 41..60 = the same with every filler complete)", ncfg);
     R.wall_s = vf_now_s() - t0;
     vf_write_results();
     return 0;
